@@ -14,13 +14,16 @@
 //	    mode k: ...Func with cmp = compare keys;  mode r: compare keys, reversed;
 //	    mode d: cmp = key(a)-key(b) (results other than -1/0/1)
 //
-// A panic is recorded as "panic:<kind>".
+// A panic is recorded as "panic:<kind>", a call that does not return within the watchdog as "hang"
+// (after three hangs the remaining cases are recorded as "skipped-after-hangs", because every
+// hung call keeps spinning in its goroutine).
 package main
 
 import (
 	"cmp"
 	"slices"
 	"strings"
+	"time"
 
 	"github.com/creachadair/mds/slice"
 	"verif/harness/internal/tr"
@@ -42,10 +45,15 @@ func cmpFor(mode string) func(a, b int) int {
 
 const poison = 999999
 
+var hangs int
+
 func exec(in string) string {
 	f := strings.Fields(in)
 	var out string
-	p := tr.Catch(func() {
+	if hangs >= 3 {
+		return "skipped-after-hangs"
+	}
+	p := tr.Guard(2*time.Second, func() {
 		switch f[0] {
 		case "L":
 			as, bs := tr.UnInts(f[2]), tr.UnInts(f[3])
@@ -105,6 +113,9 @@ func exec(in string) string {
 			out = "?"
 		}
 	})
+	if p == "hang" {
+		hangs++
+	}
 	if p != "" {
 		return p
 	}
